@@ -805,6 +805,29 @@ def sym_if(c, a, b):
               max(SInt._iv(a)[1], SInt._iv(b)[1]))
 
 
+_BC_CACHE = {}
+
+
+def _boundary_candidates(lo, hi):
+    key = (lo, hi)
+    if key not in _BC_CACHE:
+        out, seen = [], set()
+
+        def add(c):
+            if lo <= c <= hi and c not in seen:
+                seen.add(c)
+                out.append(c)
+        for c in (lo, hi, lo + 1, hi - 1, 0, 1, -1):
+            add(c)
+        bits = max(abs(lo), abs(hi)).bit_length() + 1
+        for k in range(1, bits + 1):
+            for d in (-1, 0, 1, -2):
+                add((1 << k) + d)
+                add(-(1 << k) + d)
+        _BC_CACHE[key] = out
+    return _BC_CACHE[key]
+
+
 def concretize(x, cap=512):
     """Native int for x.  Unique under the path condition -> that value;
     otherwise fork over the feasible values (bounded by `cap`, after which the
@@ -857,6 +880,19 @@ def concretize(x, cap=512):
         ctx._m = None
         ctx.sampled = True
         return v
+    if x.hi - x.lo > 64:
+        # The code forces a native value out of a wide symbolic integer
+        # (e.g. math.log(n), bytearray(n)): the values are enumerated up to
+        # `cap`, boundary values first (2^k and its neighbours, the ends of
+        # the range), then whatever the solver offers.
+        for c in _boundary_candidates(x.lo, x.hi):
+            if c in excluded or c == v:
+                continue
+            if len(excluded) >= cap:
+                break
+            if ctx.check(e == c) == z3.sat:
+                v = c
+                break
     r = ctx.check(e != v)
     if r == z3.unknown:
         raise InconclusiveError('unknown in concretize')
